@@ -7,6 +7,10 @@ use cicada::verif::types::CommandLine;
 use hx::*;
 
 fn main() {
+    // lines outside the literal class may run commands with redirections when expanded: work in a scratch directory
+    if let Ok(d) = std::env::var("C20_CWD") {
+        let _ = std::env::set_current_dir(d);
+    }
     main_loop(|f| match f[0] {
         "esc" => q(&tools::escape_path(&dec(f[1]))),
         "wrap" => q(&tools::wrap_sep_string(&dec(f[1]), &dec(f[2]))),
